@@ -318,6 +318,17 @@ func (c *Ctx) c19Scripts(n int) {
 		for i := 0; i < 7; i++ {
 			ra = append(ra, 1+r.Intn(60))
 		}
+		// the results of the native reach the script in order through every form of declaration and assignment
+		natDecl := fmt.Sprintf("%s := nat(%s)", strings.Join(lhs, ", "), al)
+		switch r.Intn(4) {
+		case 0:
+			natDecl = fmt.Sprintf("var %s = nat(%s)", strings.Join(lhs, ", "), al)
+		case 1:
+			natDecl = fmt.Sprintf("var %s int = nat(%s)", strings.Join(lhs, ", "), al)
+		case 2:
+			natDecl = fmt.Sprintf("var %s int\n\t%s = nat(%s)", strings.Join(lhs, ", "), strings.Join(lhs, ", "), al)
+		}
+		c.Rep.Count("script-native-results-by-" + strings.Fields(natDecl)[0])
 		src := fmt.Sprintf(`func deep(n int) int {
 	if n > 3 {
 		xs := []int{1}
@@ -332,7 +343,7 @@ type Hold struct {
 	F func(int, ...int) int
 }
 func main() {
-	%s := nat(%s)
+	%s
 	println(%s)
 	println(10 + one(%s)*2 - 1)
 	k := []int{one(%s), 5}
@@ -347,7 +358,7 @@ func main() {
 	println(reentv(%d, %d, 9) + reentv(4))
 }
 main()
-`, strings.Join(lhs, ", "), al, strings.Join(lhs, ", "), al, al, vcall, ra[0], ra[1], ra[2], ra[3], ra[4], ra[5], ra[6])
+`, natDecl, strings.Join(lhs, ", "), al, al, vcall, ra[0], ra[1], ra[2], ra[3], ra[4], ra[5], ra[6])
 		_, err := vm.Eval(fstest.MapFS{}, "main", src)
 		w := c19Weigh(args)
 		var want []string
